@@ -36,7 +36,7 @@ MCNext ==
          \/ \E nbs \in BlkSizes : nbs # bs /\ SetBlksize(nbs, F)
          \/ (Toggle /\ ~cfg.nocache /\ CacheOff(F))
          \/ (Toggle /\ cfg.nocache /\ F = {} /\ CacheOn)
-         \/ (F = {} /\ \E c \in Cfgs : Open(c[1], c[2], c[3], 0))
+         \/ (F = {} /\ \E c \in Cfgs : \E nc \in (IF Toggle THEN BOOLEAN ELSE {FALSE}) : Open(c[1], c[2], c[3], 0, nc))
 MCSpec == MCInit /\ [][MCNext]_mcvars
 
 \* ---- VIEW: canonical renaming of tags per granule (UNK is a fixed point; zeroout writes a fresh value here)
